@@ -188,14 +188,25 @@ def restore (c : Ckpt P S) : St P S :=
   { pop := c.pop, beta := c.beta, iter := c.iter, minStep := c.minStep, hist := c.hist,
     consumed := c.consumed, ckpts := [] }
 
-def resumeLoopFlag (k : Kit P S) (c : Ckpt P S) : Bool :=
+def resumeLoopFlag (k : Kit P S) (cfg : SmcCfg S) (c : Ckpt P S) : Bool :=
+  let notAtOne := match c.hist.beta.getLast? with
+    | some b => !(k.isOne b)        -- `last_beta >= 1.0` ⇒ skip the loop
+    | none => !(k.isOne c.beta)
+  let capReached := match cfg.maxSteps with
+    | some mx => decide (mx ≤ c.iter)   -- the checkpoint was taken at the step cap ⇒ skip the loop
+    | none => false
+  notAtOne && !capReached
+
+/-- the pinned (pre-fix) flag: the step cap was not consulted, so a run resumed from the checkpoint
+    taken at the cap performed one more iteration -/
+def resumeLoopFlagPinned (k : Kit P S) (c : Ckpt P S) : Bool :=
   match c.hist.beta.getLast? with
-  | some b => !(k.isOne b)        -- `last_beta >= 1.0` ⇒ skip the loop
+  | some b => !(k.isOne b)
   | none => !(k.isOne c.beta)
 
 /-- resume from checkpoint `c` with the steps the original run had not consumed yet -/
 def resume (k : Kit P S) (cfg : SmcCfg S) (c : Ckpt P S) (allSteps : List (Step P)) : RunOut P S :=
-  runFrom k cfg (resumeLoopFlag k c) (restore c) (allSteps.drop c.consumed)
+  runFrom k cfg (resumeLoopFlag k cfg c) (restore c) (allSteps.drop c.consumed)
 
 /-- the pinned (pre-fix) restore, kept for the negative theorems: the restored population is
     appended to the stored populations a second time and the minimum step is re-initialised -/
